@@ -15,7 +15,7 @@ func notYet(id string) {
 }
 
 func init() {
-	for _, id := range []string{"C01", "C02", "C03", "C04", "C05", "C07", "C08", "C10", "C11", "C12", "C13", "C15", "C19", "C20"} {
+	for _, id := range []string{"C01", "C02", "C03", "C04", "C05", "C07", "C08", "C10", "C11", "C12", "C13", "C15", "C20"} {
 		notYet(id)
 	}
 	claim("C06", "other",
@@ -43,4 +43,9 @@ func init() {
 		"Walkability is defined by go/types method sets (a field is a child iff its type is an INode interface, or a (slice of) struct/pointer whose pointer type implements INode); Var.Link is tabled as a scope-table link; ClassElement/ClassElementName are tabled as documented unions.",
 		"exhaustiveness + per-arm coverage rules on the type-checked AST; dominator rules on SSA", "DESIGN.md 4/C18",
 		"Decided: R-WALK (arms, field coverage, in-tree addressing, typed-nil guards), R-WALKORDER (Enter/Exit protocol). Not decided: nothing of the stated property for trees built from the declared node types; that js.Parse only builds such trees is by Go's type system.")
+	claim("C19", "other",
+		"Static rules over binary.go/binary_unix.go: Seek's target per whence has the io.Seeker affine form and its guards entail 0<=target<=Len; in-memory Bytes() produce io.EOF only under guards implying fewer than n bytes remain and return a capped full slice; fixed-width reads compose bytes in exactly the big-/little-endian layout with matching width guards and mirror the writer; Bitmap end/growth tests bound the byte actually accessed; Read/ReadBytes advance pos by len(data), ReadAt does not, first error wins. Dynamic behaviour of io.Reader/Seeker/ReaderAt/file back ends is not decided.",
+		"Integer conversions are treated as exact (no overflow modelling); encoding/binary's AppendUintN is trusted.",
+		"affine normalisation of SSA index/compare expressions + dominator-derived path facts (entailment by linear combination); byte-layout extraction from OR-trees", "DESIGN.md 4/C19",
+		"Decided: R-SEEK, R-EOFSTRICT, R-BITIDX, R-LAYOUT, R-READPOS as described. Not decided: behaviour of the io.Reader/io.ReadSeeker/io.ReaderAt/file/mmap back ends beyond the in-memory Bytes() implementations (mmap's Bytes() is covered on unix builds); value round trip of arbitrary write/read sequences.")
 }
